@@ -3,6 +3,7 @@
 // blocks, so a write at buf[cap] or past the last history slot is an ASan report.
 #include "c15_cshim.h"
 #include "c15_models.hpp"
+#include <igris/defs/signal.h>
 #include <igris/shell/vterm.h>
 
 namespace
@@ -93,7 +94,7 @@ namespace
 
     void cb_exec(void *p, const char *line, unsigned int len) { ((c15::Sink *)p)->on_exec(line, len); }
     void cb_write(void *p, const char *d, unsigned int n) { ((c15::Sink *)p)->on_write(d, n); }
-    void cb_signal(void *, int) {}
+    void cb_signal(void *p, int s) { ((c15::Sink *)p)->on_signal(s); }
 
     struct CVterm
     {
@@ -102,16 +103,32 @@ namespace
         struct vterm_automate vt;
         unsigned cap;
         char *buf, *hs;
-        CVterm(unsigned cap_, unsigned hist, c15::Sink *sink)
+        static int sigint() { return SIGINT; }
+        // struct vterm_automate has no setters for echo and prompt: the public fields are the interface
+        CVterm(unsigned cap_, unsigned hist, c15::Sink *sink, const c15::TermCfg &cfg = c15::TermCfg(),
+               const char *prompt = nullptr)
             : cap(cap_), buf((char *)malloc(cap_)), hs((char *)malloc(cap_ * hist))
         {
             memset(&vt, 0, sizeof vt);
             memset(buf, 0x55, cap);
             memset(hs, 0x55, cap * hist);
+            if (cfg.echo == 3)
+                vt.echo = 0; // before init: init switches it on again
+            if (prompt && cfg.prompt_before_init())
+                vt.prefix_string = prompt;
             vterm_automate_init(&vt, buf, cap, hs, hist);
-            vterm_set_execute_callback(&vt, cb_exec, sink);
-            vterm_set_write_callback(&vt, cb_write, sink);
-            vterm_set_signal_callback(&vt, cb_signal, sink);
+            if (cfg.echo == 1 || cfg.echo == 2)
+                vt.echo = 0;
+            if (cfg.echo == 4)
+                vt.echo = 1;
+            if (prompt && !cfg.prompt_before_init())
+                vt.prefix_string = prompt;
+            if (cfg.execcb)
+                vterm_set_execute_callback(&vt, cb_exec, sink);
+            if (cfg.writecb())
+                vterm_set_write_callback(&vt, cb_write, sink);
+            if (cfg.sigcb)
+                vterm_set_signal_callback(&vt, cb_signal, sink);
         }
         ~CVterm()
         {
